@@ -68,6 +68,9 @@ Section CacheProofs.
     | OStateRoot h lb n _ => (forall l, lb = Some l -> V h l) /\ (forall x, n = Some x -> V (h + 1) x)
     | OBlockResults h lb _ nrh _ =>
         (forall l, lb = Some l -> V h l /\ lb_height l = h) /\ (forall rh, nrh = Some rh -> R h rh)
+    | OTxResults h lb _ nrh _ _ _ =>
+        (forall l, lb = Some l -> V h l /\ lb_height l = h) /\ (forall rh, nrh = Some rh -> R h rh)
+    | OApi _ _ => True
     | ONewBlock lb b => forall l, lb = Some l -> V (b_height b) l
     | OWatch => True
     | OLatestHeight _ _ verify => forall h l, verify h = Some l -> V h l
@@ -83,6 +86,10 @@ Section CacheProofs.
     | OStateRoot h _ _ _, ARoot (SrOk r) => sr_bound h r
     | OBlockResults h (Some l) lt _ rs, AVerdict BOk =>
         (lb_height l < lt)%Z -> exists rh, R h rh /\ verify_block_results H rs rh l = BOk
+    | OTxResults h (Some l) lt _ txs rs _, AVerdict BOk =>
+        (* transactions and results of ONE call are bound to ONE verified header *)
+        verify_transactions H txs l = BOk /\
+        ((lb_height l < lt)%Z -> exists rh, R h rh /\ verify_block_results H rs rh l = BOk)
     | ONewBlock _ b, AVerdict BOk => exists l, V (b_height b) l /\ verify_block H b l = BOk
     | OLatestHeight _ _ _, AHeight (Some h) => exists hr l, V hr l /\ lb_height l = h
     | _, _ => True
@@ -91,10 +98,30 @@ Section CacheProofs.
   Lemma inv_init : inv cstate_init.
   Proof. repeat split; cbn; intros; try contradiction; discriminate. Qed.
 
+  Lemma results_step_ok st l lt nrh rs st' v h :
+    inv st -> lb_height l = h -> (forall rh, nrh = Some rh -> R h rh) ->
+    results_step H st l lt nrh rs = (st', v) ->
+    inv st' /\ (v = BOk -> (lb_height l < lt)%Z -> exists rh, R h rh /\ verify_block_results H rs rh l = BOk).
+  Proof.
+    intros (I1 & I2 & I3) Hl W2 E. unfold results_step in E.
+    destruct (Z.leb_spec lt (lb_height l)) as [Le|Gt].
+    - injection E as <- <-. split; [repeat split; assumption|]. intros _ C. lia.
+    - destruct (lru_get (lb_height l) (rh_cache st)) as [[rh|] c'] eqn:G.
+      + injection E as <- <-. apply lru_get_hit in G as [G1 G2].
+        split; [repeat split; cbn [sr_cache rh_cache latest_block]; [exact I1|intros h' r' I; apply I2, G2; exact I|exact I3]|].
+        intros VR _. exists rh. split; [rewrite <- Hl; apply I2; exact G1|exact VR].
+      + destruct nrh as [rh|]; [|injection E as <- <-; split; [repeat split; assumption|discriminate]].
+        injection E as <- <-. split.
+        * repeat split; cbn [sr_cache rh_cache latest_block]; [exact I1| |exact I3].
+          intros h' r' I. apply In_lru_put in I as [I|I]; [|apply I2; exact I].
+          injection I as -> ->. rewrite Hl. apply W2. reflexivity.
+        * intros VR _. exists rh. split; [apply W2; reflexivity|exact VR].
+  Qed.
+
   Lemma cstep_ok st o st' a :
     inv st -> op_wf o -> cstep H dec st o = (st', a) -> inv st' /\ answer_ok o a.
   Proof.
-    intros (I1 & I2 & I3) W E. destruct o as [h lb n txs|h lb lt nrh rs|lb b| |lt pl verify]; cbn [cstep] in E.
+    intros (I1 & I2 & I3) W E. destruct o as [h lb n txs|h lb lt nrh rs|h lb lt nrh txs rs conv_ok|lb c|lb b| |lt pl verify]; cbn [cstep] in E.
     - (* StateRoot *)
       destruct W as [W1 W2].
       destruct (lru_get h (sr_cache st)) as [[r|] c'] eqn:G.
@@ -121,23 +148,22 @@ Section CacheProofs.
     - (* BlockResults *)
       destruct W as [W1 W2].
       destruct lb as [l|]; [|injection E as <- <-; split; [repeat split; assumption|exact Logic.I]].
+      destruct (results_step H st l lt nrh rs) as [st1 v] eqn:RS. injection E as <- <-.
       destruct (W1 l eq_refl) as [Vl Hl].
-      destruct (Z.leb_spec lt (lb_height l)) as [Le|Gt].
-      + injection E as <- <-. split; [repeat split; assumption|].
-        cbn. destruct (core_verify_block_results H lt rs nrh l); try exact Logic.I. intros C. lia.
-      + destruct (lru_get (lb_height l) (rh_cache st)) as [[rh|] c'] eqn:G.
-        * injection E as <- <-. apply lru_get_hit in G as [G1 G2].
-          split; [repeat split; cbn; [exact I1|intros h' r' I; apply I2, G2; exact I|exact I3]|].
-          cbn. destruct (verify_block_results H rs rh l) eqn:VR; try exact Logic.I.
-          intros _. exists rh. split; [rewrite <- Hl; apply I2; exact G1|exact VR].
-        * destruct nrh as [rh|]; [|injection E as <- <-; split; [repeat split; assumption|exact Logic.I]].
-          injection E as <- <-.
-          split.
-          -- repeat split; cbn; [exact I1| |exact I3].
-             intros h' r' I. apply In_lru_put in I as [I|I]; [|apply I2; exact I].
-             injection I as -> ->. rewrite Hl. apply W2. reflexivity.
-          -- cbn. destruct (verify_block_results H rs rh l) eqn:VR; try exact Logic.I.
-             intros _. exists rh. split; [apply W2; reflexivity|exact VR].
+      destruct (results_step_ok st l lt nrh rs st1 v h (conj I1 (conj I2 I3)) Hl W2 RS) as [Iv A].
+      split; [exact Iv|]. cbn. destruct v; try exact Logic.I. intros C. apply A; [reflexivity|exact C].
+    - (* TxResults *)
+      destruct W as [W1 W2].
+      destruct lb as [l|]; [|injection E as <- <-; split; [repeat split; assumption|exact Logic.I]].
+      destruct (verify_transactions H txs l) eqn:T;
+        try (injection E as <- <-; split; [repeat split; assumption|exact Logic.I]).
+      destruct (results_step H st l lt nrh rs) as [st1 v] eqn:RS. injection E as <- <-.
+      destruct (W1 l eq_refl) as [Vl Hl].
+      destruct (results_step_ok st l lt nrh rs st1 v h (conj I1 (conj I2 I3)) Hl W2 RS) as [Iv A].
+      split; [exact Iv|]. cbn. destruct v; try exact Logic.I. destruct conv_ok; [|exact Logic.I].
+      split; [exact T|]. intros C. apply A; [reflexivity|exact C].
+    - (* Api *)
+      injection E as <- <-. split; [repeat split; assumption|]. cbn. destruct (core_api H lb c); exact Logic.I.
     - (* NewBlock *)
       destruct lb as [l|]; [|injection E as <- <-; split; [repeat split; assumption|exact Logic.I]].
       destruct (verify_block H b l) eqn:VB; injection E as <- <-;
